@@ -167,6 +167,34 @@ class TreeChecker:
         return []
 
 
+SWAPS = {"sin": "cos", "cos": "sin", "zeros_like": "ones_like", "ones": "zeros", "real": "imag", "atleast_1d": "asarray", "minimum": "maximum", "maximum": "minimum"}
+
+
+def twin_function(func):
+    """A different function with the same bytecode and the same constants: one global / attribute name it
+    refers to is swapped for a sibling (np.sin <-> np.cos, ...), so it computes something else."""
+    import types
+
+    code = getattr(func, "__code__", None)
+    if code is None:
+        return None
+    names = list(code.co_names)
+    for i, nm in enumerate(names):
+        if nm in SWAPS:
+            names[i] = SWAPS[nm]
+            return types.FunctionType(code.replace(co_names=tuple(names)), func.__globals__, func.__name__, func.__defaults__, func.__closure__)
+    return None
+
+
+def rebuild(obj, target, replacement):
+    """The same expression with the leaf object `target` replaced."""
+    if obj is target:
+        return replacement
+    if hasattr(obj, "left") and hasattr(obj, "operator"):
+        return obj.operator(rebuild(obj.left, target, replacement), rebuild(obj.right, target, replacement))
+    return obj
+
+
 def walk_params(obj, out):
     import tdgl
 
@@ -284,6 +312,26 @@ def post(sim, h):
 
         import numbers as _numbers
 
+        # ... and a leaf is its function: the same expression over a leaf that wraps ANOTHER function (same
+        # signature, same keyword arguments, same literals, even the same bytecode - it just calls a sibling
+        # numpy routine) is a different expression and evaluates differently
+        if isinstance(A, tdgl.Parameter) and not V:
+            for leaf in [q_ for q_ in walk_params(A, []) if not hasattr(q_, "left")][:4]:
+                tf = twin_function(getattr(leaf, "func", None))
+                if tf is None:
+                    continue
+                try:
+                    leaf2 = tdgl.Parameter(tf, time_dependent=bool(leaf.time_dependent), **dict(leaf.kwargs))
+                    A2 = rebuild(A, leaf, leaf2)
+                    if bool(A2 == A) or bool(A == A2):
+                        V.append(Violation("equality-not-structural", f"the expression compares equal to the same expression built over a leaf that wraps a different function ({leaf.func.__name__}: same bytecode and constants, another numpy routine)", where_="leaf-function", **where))
+                        break
+                except Exception as e:
+                    tb_ = __import__("traceback").extract_tb(e.__traceback__)
+                    if not any("/tdgl/" in f_.filename for f_ in tb_):
+                        raise
+                    V.append(Violation("equality-raised", f"comparing with a sibling-leaf expression raised {type(e).__name__}: {str(e)[:100]}", **where))
+                    break
         if isinstance(A, CompositeParameter) and not all(isinstance(x_, (tdgl.Parameter, _numbers.Number)) for x_ in (A.left, A.right)):
             V.append(Violation("operands-corrupted", f"after pickling / reloading copies, the operands of the ORIGINAL composite are {type(A.left).__name__} and {type(A.right).__name__}", **where))
         elif isinstance(A, CompositeParameter):
